@@ -9,7 +9,7 @@ man = {
  "setup_cmd": "./setup.sh",
  "hooks": {
   "guard": "verif",
-  "enable": "no hook is committed to /repo: ./build.sh runs tools/vinstr on the current working tree and builds with `go build -overlay <generated> -tags verif` (rewritten copies + virtual package github.com/evolbioinfo/goalign/verifrt); with the overlay absent the repository is the untouched baseline",
+  "enable": "no hook is committed to /repo: ./build.sh runs tools/vinstr on the current working tree and builds with `go build -overlay <generated> -tags verif` (rewritten copies + virtual package github.com/evolbioinfo/goalign/verifrt + two added files, rt/extra/align/verif_export.go and rt/extra/distance__protein/verif_export.go, that dump private state of packages align and distance/protein); with the overlay absent the repository is the untouched baseline",
   "baseline_off_cmd": "cd /repo && GOFLAGS=-mod=mod go test -json -vet=off -count=1 ./...",
   "source_commits": [],
   "add_only": True,
@@ -18,7 +18,7 @@ man = {
   {"name": "vinstr", "path": "tools/vinstr", "serves_properties": [c["property_id"] for c in checks["checks"]],
    "kind_free_text": "type-directed source-to-source instrumenter (go/types) producing a build overlay from /repo's current tree: scheduler hooks, RNG / map-order / clock / exit seams, shared-variable access events"},
   {"name": "vrt", "path": "rt", "serves_properties": [c["property_id"] for c in checks["checks"]],
-   "kind_free_text": "runtime: cooperative controlled scheduler with shadow channel/mutex/WaitGroup state, vector-clock race detection, choice-point trace"},
+   "kind_free_text": "runtime: cooperative controlled scheduler with shadow channel/mutex/RWMutex/WaitGroup/Cond/Pool/Once/select state, vector-clock race detection, choice-point trace"},
   {"name": "mc", "path": "harness/mc", "serves_properties": [c["property_id"] for c in checks["checks"]],
    "kind_free_text": "explorer: deviation-bounded choice-tree DFS, explicit-state BFS, bounded-exhaustive input enumeration, sharding over worker processes, 5x replay confirmation, evidence"},
  ],
